@@ -254,36 +254,43 @@ func LoadSoilCSV(withGroundwater bool, LOGID string, hPath *HFilePath, soilID st
 				soildata.CNRATIO[i] = ValAsFloat(tokens[header[c_n]], "none", bodenLine)
 				(&soildata).cNSetup(i)
 				soildata.STEIN[i] = ValAsFloat(tokens[header[stone]], "none", bodenLine) / 100
+				// optional columns: a column that is absent from the header is not read at all
+				// (the zero value of the header map is column 0, the soil id)
 				// Field capacity
-
-				value, err := TryValAsFloat(tokens[header[fieldcapacity]])
-				if err == nil {
-					soildata.FKA[i] = value
+				if col, ok := header[fieldcapacity]; ok {
+					if value, err := TryValAsFloat(tokens[col]); err == nil {
+						soildata.FKA[i] = value
+					}
 				}
 				// wilting point
-				value, err = TryValAsFloat(tokens[header[wiltingpoint]])
-				if err == nil {
-					soildata.WP[i] = value
+				if col, ok := header[wiltingpoint]; ok {
+					if value, err := TryValAsFloat(tokens[col]); err == nil {
+						soildata.WP[i] = value
+					}
 				}
 				// general pore volume
-				value, err = TryValAsFloat(tokens[header[porevolume]])
-				if err == nil {
-					soildata.GPV[i] = value
+				if col, ok := header[porevolume]; ok {
+					if value, err := TryValAsFloat(tokens[col]); err == nil {
+						soildata.GPV[i] = value
+					}
 				}
 				// sand in %
-				value, err = TryValAsFloat(tokens[header[sand]])
-				if err == nil {
-					soildata.SSAND[i] = value
+				if col, ok := header[sand]; ok {
+					if value, err := TryValAsFloat(tokens[col]); err == nil {
+						soildata.SSAND[i] = value
+					}
 				}
 				// silt in %
-				value, err = TryValAsFloat(tokens[header[silt]])
-				if err == nil {
-					soildata.SLUF[i] = value
+				if col, ok := header[silt]; ok {
+					if value, err := TryValAsFloat(tokens[col]); err == nil {
+						soildata.SLUF[i] = value
+					}
 				}
 				// clay in %
-				value, err = TryValAsFloat(tokens[header[clay]])
-				if err == nil {
-					soildata.TON[i] = value
+				if col, ok := header[clay]; ok {
+					if value, err := TryValAsFloat(tokens[col]); err == nil {
+						soildata.TON[i] = value
+					}
 				}
 				if i+1 < soildata.AZHO {
 					// scan next line in soil profile
